@@ -88,6 +88,7 @@ def run_check(pid, tier, seed, write_baseline=False):
 
     baseline = load_baseline().get(pid, {})
     base_ids = set(baseline.get("discharged", []))
+    base_funcs = set(baseline.get("functions_ok", []))
     known = load_known()
     known_for = [k for k in known.get("known", []) if k["property"] == pid]
 
@@ -107,7 +108,10 @@ def run_check(pid, tier, seed, write_baseline=False):
         if kf is not None:
             known_hits.append((kf, o))
             continue
-        in_base = o["id"] in base_ids
+        # regressed: the obligation itself was discharged on the pinned tree, or it is an exception
+        # escaping a function whose whole contract (incl. its exception frame) was discharged there
+        in_base = o["id"] in base_ids or (
+            o["func"] in base_funcs and (o["kind"] == "RAISES" or o["kind"].startswith("SAFE")))
         if rep["confirmed"]:
             violations.append((o, rep, ""))
         elif in_base:
@@ -211,7 +215,10 @@ def run_check(pid, tier, seed, write_baseline=False):
         json.dump(evidence, f, indent=1, default=str)
     if write_baseline:
         allb = load_baseline()
-        allb[pid] = {"discharged": sorted(o["id"] for o in discharged)}
+        bad_funcs = {o["func"] for o in obligations if o["status"] != "discharged"}
+        allb[pid] = {"discharged": sorted(o["id"] for o in discharged),
+                     "functions_ok": sorted({r["qual"] for r in results if r["status"] == "ok"}
+                                            - bad_funcs)}
         os.makedirs(os.path.join(ROOT, "baseline"), exist_ok=True)
         with open(os.path.join(ROOT, "baseline", "obligations.json"), "w") as f:
             json.dump(allb, f, indent=1)
